@@ -4,7 +4,7 @@
    C01 wire entry point that adds them to the operations of BufferEdit. *)
 From Coq Require Import ZArith List Bool.
 From PTK Require Import Lib.Sx Lib.Py Model.Document Model.BufferEdit Model.C02_DocQueries
-  Model.C01_CaseMap.
+  Model.C01_CaseMap Model.C01_Reshape.
 Import ListNotations.
 Open Scope Z_scope.
 
@@ -47,12 +47,14 @@ Definition case_F (kind : Z) (s : str) : str := case_F' kind s.
 (* ---------------------------------------------------------------------- *)
 Inductive xop :=
 | XBase (o : op)
-| XCase (kind arg : Z).
+| XCase (kind arg : Z)
+| XReshape (from_row to_row tw : Z).
 
 Definition xstep (b : buf) (x : xop) : res :=
   match x with
   | XBase o => step b o
   | XCase k a => case_word (case_F k) b a
+  | XReshape a e tw => reshape_text_w b a e tw
   end.
 
 (* KeyPressEvent.arg (key_processor.py): the count typed before the command
@@ -64,6 +66,7 @@ Definition event_arg (raw : Z) : Z := if 1000000 <=? raw then 1 else raw.
 Definition dec_xop (s : sx) : option xop :=
   match s with
   | L [A 22; A k; A a] => Some (XCase k (event_arg a))
+  | L [A 24; A a; A e; A tw] => Some (XReshape a e tw)
   | L [A 17; A n] => Some (XBase (OBackwardDeleteChar (event_arg n)))
   | L [A 18; A n] => Some (XBase (ODeleteChar (event_arg n)))
   | L [A 19; d; A n] =>
